@@ -1,6 +1,11 @@
 package props
 
 import (
+	"fmt"
+	"go/token"
+	"sort"
+	"strings"
+
 	"gcacheck/internal/an"
 
 	"golang.org/x/tools/go/ssa"
@@ -118,16 +123,75 @@ func (l *natLoop) earlyExits() [][2]*ssa.BasicBlock {
 	return out
 }
 
-// abortsOnly: every path from b ends in a panic or in a return whose last
-// result (the error) is not the nil constant.
-func abortsOnly(fi *an.FuncInfo, b *ssa.BasicBlock) bool {
-	seen := map[*ssa.BasicBlock]bool{}
-	var walk func(x *ssa.BasicBlock) bool
-	walk = func(x *ssa.BasicBlock) bool {
-		if seen[x] {
+// abortsOnly: every path that continues over the edge from -> b ends in a panic or in a return whose last result (the
+// error) is not the nil constant. The walk follows error values through joins: a phi that receives, on the edge taken, a
+// value known to be non-nil there (a comparison fact, fmt.Errorf, errors.New, another such phi) is non-nil, and a later
+// test phi != nil / phi == nil is followed only on the side that agrees (err = e; break ... if err != nil { return err }).
+func abortsOnly(fi *an.FuncInfo, from, b *ssa.BasicBlock) bool {
+	seen := map[string]bool{}
+	nilc := an.ConstTerm("nil")
+	nonNilOn := func(v ssa.Value, prev, x *ssa.BasicBlock, known map[ssa.Value]bool) bool {
+		if known[v] {
 			return true
 		}
-		seen[x] = true
+		t := fi.Term(v)
+		if isDefinitelyError(t) {
+			return true
+		}
+		if c, isC := t.IsConst(); isC {
+			return c != "nil" && c != "<nil>"
+		}
+		key := an.NormBin("!=", t, nilc).Key()
+		if n := len(prev.Instrs); n > 0 && fi.FactsAt(prev.Instrs[n-1]).Has(key) {
+			return true
+		}
+		for _, f := range fi.EdgeFacts(prev, x) {
+			if f.Key() == key {
+				return true
+			}
+		}
+		return false
+	}
+	var walk func(prev, x *ssa.BasicBlock, known map[ssa.Value]bool) bool
+	walk = func(prev, x *ssa.BasicBlock, known map[ssa.Value]bool) bool {
+		if prev != nil {
+			idx := -1
+			for i, p := range x.Preds {
+				if p == prev {
+					idx = i
+				}
+			}
+			var add []ssa.Value
+			for _, in := range x.Instrs {
+				ph, ok := in.(*ssa.Phi)
+				if !ok {
+					break
+				}
+				if idx >= 0 && isErrorish(ph) && nonNilOn(ph.Edges[idx], prev, x, known) {
+					add = append(add, ph)
+				}
+			}
+			if len(add) > 0 {
+				k2 := map[ssa.Value]bool{}
+				for v := range known {
+					k2[v] = true
+				}
+				for _, v := range add {
+					k2[v] = true
+				}
+				known = k2
+			}
+		}
+		var ids []string
+		for v := range known {
+			ids = append(ids, v.Name())
+		}
+		sort.Strings(ids)
+		sk := fmt.Sprintf("%d|%s", x.Index, strings.Join(ids, ","))
+		if seen[sk] {
+			return true
+		}
+		seen[sk] = true
 		if len(x.Instrs) == 0 {
 			return false
 		}
@@ -138,19 +202,39 @@ func abortsOnly(fi *an.FuncInfo, b *ssa.BasicBlock) bool {
 			if len(t.Results) == 0 {
 				return false
 			}
-			return !isConstTerm(fi.Term(t.Results[len(t.Results)-1]), "nil")
+			last := t.Results[len(t.Results)-1]
+			if ph, isPhi := last.(*ssa.Phi); isPhi && ph.Block() == x && prev != nil {
+				// the value the join receives on the way taken
+				return known[ph]
+			}
+			return !isConstTerm(fi.Term(last), "nil")
+		case *ssa.If:
+			if bo, ok := t.Cond.(*ssa.BinOp); ok && (bo.Op == token.NEQ || bo.Op == token.EQL) {
+				var v ssa.Value
+				if c, ok := bo.Y.(*ssa.Const); ok && c.IsNil() {
+					v = bo.X
+				} else if c, ok := bo.X.(*ssa.Const); ok && c.IsNil() {
+					v = bo.Y
+				}
+				if v != nil && known[v] {
+					if bo.Op == token.NEQ {
+						return walk(x, x.Succs[0], known)
+					}
+					return walk(x, x.Succs[1], known)
+				}
+			}
 		}
 		if len(x.Succs) == 0 {
 			return false
 		}
 		for _, s := range x.Succs {
-			if !walk(s) {
+			if !walk(x, s, known) {
 				return false
 			}
 		}
 		return true
 	}
-	return walk(b)
+	return walk(from, b, map[ssa.Value]bool{})
 }
 
 // noSilentEarlyExit: the loop is left only through its header's condition or
@@ -158,7 +242,7 @@ func abortsOnly(fi *an.FuncInfo, b *ssa.BasicBlock) bool {
 // offending edge otherwise.
 func (l *natLoop) noSilentEarlyExit(fi *an.FuncInfo) (bool, string) {
 	for _, e := range l.earlyExits() {
-		if !abortsOnly(fi, e[1]) {
+		if !abortsOnly(fi, e[0], e[1]) {
 			pos := ""
 			for _, in := range e[0].Instrs {
 				if in.Pos().IsValid() {
